@@ -61,30 +61,27 @@ Theorem C09_stack_bound : forall lax lim c ld name o,
 Proof. exact stack_bound. Qed.
 Print Assumptions C09_stack_bound.
 
-(* ... but with the default limits that bound is far above CPython's recursion limit, and the full statement "recursion is
-   cut off by ContextDepthError before the stack is exhausted" is REFUTED: a template including itself from inside 15 nested
-   if blocks (the nesting limit allows 30) reaches the depth limit only after more than 1000 frames (known finding
-   recursion-error-before-context-depth-limit; the check reproduces it in a child process) *)
-Theorem C09_within_stack_refuted :
-  exists d, d <= 30 /\
-    (exists o, render_template false 30 cpython_sync (self_family KInclude d 1) (fuel_bound 30 (self_family KInclude d 1)) 0 = Some o
-               /\ raised o = Some EContextDepth) /\
-    recursion_limit < frames_needed cpython_sync 30 KInclude d.
-Proof. exact within_stack_refuted. Qed.
-Print Assumptions C09_within_stack_refuted.
+(* ... but with the default limits that bound is far above CPython's recursion limit.  BoundTemplate.render / render_async
+   and Environment.from_string therefore convert a stack overflow into ContextDepthError (fix: C09-recursion-error-to-context-
+   depth-error): a template that includes or renders itself from inside ANY number of nested blocks ends in ContextDepthError
+   in strict mode for every limit, every frame cost and every stack size *)
+Theorem C09_within_stack : forall stack lim cs k d, self_outcome true stack lim cs k d = TErr EContextDepth.
+Proof. exact within_stack_on. Qed.
+Print Assumptions C09_within_stack.
 
-Theorem C09_within_stack_refuted_render : exists d, d <= 30 /\ recursion_limit < frames_needed cpython_sync 30 KRender d.
-Proof. exact within_stack_refuted_render. Qed.
-Print Assumptions C09_within_stack_refuted_render.
+(* the behaviour before the repair, refuted by witness: with limits 30 / 30 and the frame costs measured on CPython a template
+   including itself from inside 15 nested if blocks (6 for render) overflowed the 1000-frame stack and RecursionError escaped
+   (the check reproduces it in a child process on a tree without the repair) *)
+Theorem C09_within_stack_old_refuted :
+  exists d, d <= 30 /\ recursion_limit < frames_needed cpython_sync 30 KInclude d /\
+            self_outcome_old recursion_limit 30 cpython_sync KInclude d = TErr ERecursionError.
+Proof. exact within_stack_old_refuted. Qed.
+Print Assumptions C09_within_stack_old_refuted.
 
-(* what does hold for the measured constants: up to block depth 13 (include) / 5 (render) the model's frame figure -- a lower
-   bound, the engine re-parses the partial on top of it -- stays 60 below the limit (the engine was seen to reach
-   ContextDepthError up to depth 12 / 5 on the synchronous path) *)
-Theorem C09_within_stack_partial :
-  (forall d, d <= 13 -> frames_needed cpython_sync 30 KInclude d <= recursion_limit - 60) /\
-  (forall d, d <= 5 -> frames_needed cpython_sync 30 KRender d <= recursion_limit - 60).
-Proof. exact within_stack_partial. Qed.
-Print Assumptions C09_within_stack_partial.
+Theorem C09_within_stack_old_refuted_render :
+  exists d, d <= 30 /\ self_outcome_old recursion_limit 30 cpython_sync KRender d = TErr ERecursionError.
+Proof. exact within_stack_old_refuted_render. Qed.
+Print Assumptions C09_within_stack_old_refuted_render.
 
 (* lax mode: every depth-limit error is dropped by the nearest render_with_context, so a template that renders itself twice
    does 2^(limit+2) - 1 units of work (limits 4..12 evaluated; with the default limit of 30 that is 2^32: known finding
